@@ -182,6 +182,6 @@ def run(tier, replay):
     for g in (acc[:2] + rej[:2]):
         ck.sample({"iso": g[0], "level": g[1], "mode": g[2], "window": g[3], "library": g[4], "plumbing": g[5], "reference": g[6]})
     ck.assumptions += ["gA rules evaluated twice: no dataset (modes 21-24 refused everywhere) and a synthetic dataset mounted for Mo100/g0 only (accepted exactly there)",
-                       "window classes: valid = (0, 5) MeV, inverted = (2, 1) MeV, beyond = (5, 6) MeV (above every Q value)",
+                       "window classes: valid = (0, 5) MeV, lower = (0, undefined), upper = (undefined, 5), inverted = (2, 1) MeV, beyond = (5, 6) MeV (above every Q value)",
                        "levels whose spin flag the reference leaves unassigned (Dy156 levels 12, 13) have no specified verdict"]
     return ck.finish()
